@@ -23,9 +23,21 @@ pub fn parse_line(line: &str) -> Vec<Group> {
 }
 
 pub fn fmt_groups(gs: &[Group]) -> String {
+    // a result group that no generated case can legitimately produce (runaway output of a broken
+    // implementation): keep its head, then a marker and the true length
+    const MAX_GROUP: usize = 1 << 17;
     gs.iter()
         .map(|g| {
-            g.iter()
+            let shown: Vec<u128> = if g.len() > MAX_GROUP {
+                let mut h = g[..256].to_vec();
+                h.push(0xffff_fffe);
+                h.push(g.len() as u128);
+                h
+            } else {
+                g.clone()
+            };
+            shown
+                .iter()
                 .map(|x| format!("{:x}", x))
                 .collect::<Vec<_>>()
                 .join(" ")
@@ -61,6 +73,7 @@ pub fn run_case(groups: &[Group]) -> Vec<Group> {
         9 => pure::run_stats(ops),
         10 => pure::run_fcp(hdr, data),
         11 => pure::run_stats_threads(hdr, ops),
+        13 => pure::run_stats_failing(hdr, ops),
         _ => vec![vec![ST_PANIC]],
     }
 }
